@@ -150,19 +150,15 @@ def SPECS():
             ("no-earlier-keyword-matches", z3.Not(memcf(sub(AGGKEYS, 0, i), casefold(st.ghost["args"]["begin_agg"].t))))],
             modifies=[])})
 
+    # No claim that a begin keyword always has a class: in ISISGrammar the keyword table used by
+    # is_begin_aggregation() lists BEGIN_GROUP/BEGIN_OBJECT, group_keywords/object_keywords do not.
+    # parse_aggregation_block must therefore handle the ValueError exit (it throws into the lexer).
     sp["aggregation_cls"] = dict(
         params={"begin": "tok"}, pure=True,
         exits=[
-            Exit("return", when=lambda pre, a: isBegin(a["begin"].t), res="cont",
-                 post=lambda pre, post, a, r: [("stream-untouched", unchanged(pre, post))]),
-            Exit("ValueError", when=lambda pre, a: z3.Not(isBegin(a["begin"].t)),
-                 post=lambda pre, post, a, r: [("stream-untouched", unchanged(pre, post))])],
-        loops={0: LoopSpec(inv=lambda env, st, i: [
-            ("no-group-keyword-so-far", z3.Not(memcf(sub(GRPKEYS, 0, i), casefold(st.ghost["args"]["begin"].t))))], modifies=[]),
-            1: LoopSpec(inv=lambda env, st, i: [
-                ("no-group-keyword", z3.Not(memcf(GRPKEYS, casefold(st.ghost["args"]["begin"].t)))),
-                ("no-object-keyword-so-far", z3.Not(memcf(sub(OBJKEYS, 0, i), casefold(st.ghost["args"]["begin"].t))))],
-                modifies=[])})
+            Exit("return", res="cont", post=lambda pre, post, a, r: [("stream-untouched", unchanged(pre, post))]),
+            Exit("ValueError", post=lambda pre, post, a, r: [("stream-untouched", unchanged(pre, post))])],
+        loops={0: LoopSpec(inv=lambda env, st, i: [], modifies=[]), 1: LoopSpec(inv=lambda env, st, i: [], modifies=[])})
 
     # ---- end statement -------------------------------------------------------------------------
     sp["parse_end_statement"] = dict(
@@ -191,7 +187,8 @@ def SPECS():
         params={"tokens": "tokens"},
         requires=lambda pre, a: [("ready", ready(pre))],
         exits=[
-            Exit("return", res="val", post=lambda pre, post, a, r: [("progress", progressed(pre, post)), wf(pre, post)]),
+            # no progress claim: the default loader's hook may supply a placeholder without consuming a token
+            Exit("return", res="val", post=lambda pre, post, a, r: [wf(pre, post)]),
             Exit("StopIteration", when=lambda pre, a: z3.And(z3.Not(pre.pbf), z3.Not(pre.live)),
                  post=lambda pre, post, a, r: [("exhausted", dead(post)), wf(pre, post)]),
             Exit("ParseError", post=lambda pre, post, a, r: [wf(pre, post)]),
@@ -220,7 +217,7 @@ def SPECS():
         params={"delimiters": lambda ex: TupV([Z("str", fresh("d_open", S)), Z("str", fresh("d_close", S))]), "tokens": "tokens"},
         requires=lambda pre, a: [("ready", ready(pre))],
         exits=[
-            Exit("return", res="val", post=lambda pre, post, a, r: [("progress", progressed(pre, post)), wf(pre, post)]),
+            Exit("return", res="val", post=lambda pre, post, a, r: [wf(pre, post)]),
             Exit("ParseError", post=lambda pre, post, a, r: [wf(pre, post)]),
             lexerror()])
 
@@ -245,7 +242,7 @@ def SPECS():
             Exit("return", res="val", post=lambda pre, post, a, r: [("progress", progressed(pre, post)), wf(pre, post)]),
             Exit("ValueError", post=lambda pre, post, a, r: [("nothing-consumed", post.rem == pre.rem),
                                                               ("not-finished-by-this", z3.Implies(pre.live, post.live)), wf(pre, post)]),
-            Exit("StopIteration", when=lambda pre, a: z3.And(z3.Not(pre.pbf), z3.Not(pre.live)),
+            Exit("StopIteration", when=lambda pre, a: z3.And(z3.Not(pre.pbf), z3.Or(z3.Not(pre.live), pre.cur >= N)),
                  post=lambda pre, post, a, r: [("exhausted", dead(post)), wf(pre, post)]),
             lexerror()])
 
@@ -255,9 +252,9 @@ def SPECS():
         exits=[
             Exit("return", res=lambda ex: TupV([Z("str", fresh("r_block", S)), ObjV("cont", info={"oid": "ragg"})]),
                  post=lambda pre, post, a, r: [("progress", progressed(pre, post)), wf(pre, post)]),
+            # only "this is not a block": raised by the begin statement before anything was consumed
             Exit("ValueError", post=lambda pre, post, a, r: [
-                ("no-gain", post.rem <= pre.rem),
-                ("stream-restored-exhausted-or-consumed", z3.Or(sent_back(post), dead(post), progressed(pre, post))), wf(pre, post)]),
+                ("stream-restored-or-exhausted", z3.Or(z3.And(sent_back(post), post.rem == pre.rem), dead(post))), wf(pre, post)]),
             Exit("ParseError", post=lambda pre, post, a, r: [wf(pre, post)]),
             lexerror()],
         loops={0: LoopSpec(inv=lambda env, st, i: [("begin-statement-consumed", rem_of(st.th) < st.ghost["pre"].rem)],
@@ -268,6 +265,7 @@ def SPECS():
         pt = p.t if isinstance(p, Z) else z3.BoolVal(bool(p.v))
         th = st.th
         return [("a-token-is-pending-when-nothing-parsed", z3.Implies(z3.Not(pt), z3.And(th["pbf"], th["live"], th["started"]))),
+                ("no-token-regained", rem_of(th) <= st.ghost["pre"].rem),
                 ("not-after-END", z3.Not(th["ended"]))]
 
     sp["parse_module"] = dict(
